@@ -22,6 +22,7 @@ from pybads.utils.timer import Timer
 from pybads.variable_transformer import VariableTransformer
 
 from .gaussian_process_train import (
+    GP_POSTERIOR_ERRORS,
     add_and_update_gp,
     init_and_train_gp,
     local_gp_fitting,
@@ -2449,7 +2450,7 @@ class BADS:
             try:
                 tmp_gp.set_hyperparameters(hyp_best)
                 f_target_mu, fs2 = tmp_gp.predict(np.atleast_2d(u))
-            except np.linalg.LinAlgError:
+            except GP_POSTERIOR_ERRORS:
                 # The posterior cannot be computed with these hyperparameters:
                 # treated below like a non-finite prediction
                 f_target_mu = np.full((1, 1), np.nan)
